@@ -1,6 +1,7 @@
 """C19 -- clouds and hazes act only inside their declared pressure range."""
 import z3
 from pyvc.unit import Unit, ObjSpec, Lemma, Bounded
+from pyvc.core import to_int
 
 SC = 'taurex.contributions.simpleclouds:SimpleCloudsContribution.'
 
@@ -194,6 +195,168 @@ LMP = Unit('C19', LM + 'prepare_each', _lm_params, pre=lm_pre, post=lm_post, nat
            inline=['mieBottomPressure', 'mieTopPressure', 'mieRadius', 'mieQ', 'mieMixing'],
            frame_attrs=[('self', a) for a in ('sigma_xsec', '_nlayers', '_ngrid')], safety=('index',),
            short='LeeMieContribution.prepare_each', doc='Lee haze: window selection and wavelength law')
+
+
+# ------------------------------------------------------------------ FlatMie.prepare_each: grey haze between two pressures
+FM = 'taurex.contributions.flatmie:FlatMieContribution.'
+
+
+def _fm_params(c):
+    n, W = c.int('n'), c.int('W')
+    top_set, bot_set = c.choice('top_set'), c.choice('bottom_set')
+    return dict(self=ObjSpec('FlatMieContribution', _mie_mix=c.real('mix'), _mie_bottom_pressure=c.real('Pbottom') if bot_set else -1,
+                             _mie_top_pressure=c.real('Ptop') if top_set else -1, sigma_xsec=None, _nlayers=None, _ngrid=None),
+                model=ObjSpec('SimpleForwardModel', nLayers=n, pressure=ObjSpec('PressureProfile', pressure_profile_levels=c.array('lev', (n + 1,)))),
+                wngrid=c.array('wngrid', (W,)))
+
+
+def _fm_pre(c, v):
+    s = v.self
+    n = v.model.nLayers
+    L = v.model.pressure.pressure_profile_levels
+    d = {'shape': c.And(n >= 1, c.Len(v.wngrid) >= 0, c.Len(L) == n + 1), 'magnitude_non_negative': s._mie_mix >= 0,
+         'levels_positive_decreasing': c.And(c.Forall(0, n + 1, lambda i: L[i] > 0),
+                                             c.Forall2((0, n + 1), (0, n + 1), lambda i, j: c.Implies(i < j, L[i] > L[j])))}
+    if not _unset(s._mie_bottom_pressure):
+        d['bottom_set'] = c.Lt(0, s._mie_bottom_pressure)
+    if not _unset(s._mie_top_pressure):
+        d['top_set'] = c.Lt(0, s._mie_top_pressure)
+    return d
+
+
+def _fm_post(c, v0, v1, r):
+    """layer l lies between the levels L[l+1] < L[l]; the window is [lo, hi] = the sorted pair (top, bottom), an unset bound being
+    the outermost level; compared where the code compares, in log10(pressure) (log10 increasing: the same layers as in
+    pressure).  No haze in a layer wholly outside the window, a positive amount in every layer overlapping it in positive
+    length, never more than the declared magnitude."""
+    s, L = v0.self, v0.model.pressure.pressure_profile_levels
+    n, W = v0.model.nLayers, c.Len(v0.wngrid)
+    if len(r) != 1:
+        return {'one_component': False}
+    name, sig = r[0]
+    bottom = L[0] if _unset(s._mie_bottom_pressure) else s._mie_bottom_pressure
+    top = L[n] if _unset(s._mie_top_pressure) else s._mie_top_pressure
+    lt, lb = c.log10(top), c.log10(bottom)
+    lo, hi = c.Min(lt, lb), c.Max(lt, lb)
+    mix = s._mie_mix
+    LL = lambda i: c.log10(L[i])
+    tol = 1e-9 if c.mode == 'conc' else 0          # (array and scalar log10 of one number may differ in the last bit)
+    outside = lambda l: c.Or(LL(l) <= lo - tol, hi + tol <= LL(l + 1))
+    meets = lambda l: c.And(lo + tol < LL(l), LL(l + 1) < hi - tol, lo < hi)
+    d = {'one_component': name == 'Flat', 'shape': c.And(c.Shape(sig)[0] == n, c.Shape(sig)[1] == W), 'stored': v1.self.sigma_xsec is not None}
+    A = lambda l, w: c.And(c.Le(0, sig[l, w]), sig[l, w] <= mix * (1 + tol))
+    B = lambda l, w: c.Implies(outside(l), c.Eq(sig[l, w], 0))
+    C = lambda l, w: c.Implies(c.And(meets(l), c.Lt(0, mix)), c.Lt(0, sig[l, w]))
+    if c.mode != 'sym':
+        d['never_more_than_the_declared_magnitude'] = c.Forall2((0, n), (0, W), A)
+        d['none_in_layers_wholly_outside'] = c.Forall2((0, n), (0, W), B)
+        d['some_in_every_layer_that_overlaps'] = c.Forall2((0, n), (0, W), C)
+        return d
+    # ---- proof: ghost access to the locals and to what searchsorted / max returned
+    from pyvc.core import View
+    loc = View(c, c.raw['state'].env, c.raw['state'].heap, c.raw['state'].trace)
+    pl = loc.pressure_levels                      # log10 of the levels, ascending: pl[j] = log10 L[n-j]
+    a_, b_ = loc.P_range[0], loc.P_range[1]
+    s1, s2 = loc.ghost('searchsorted')[-2:]
+    e1, e2 = loc.ghost('searchsorted_elements')[-2:]        # named elements of P_right and of P_left[1:]
+    nn = to_int(n)
+    unset = (1 if _unset(s._mie_bottom_pressure) else 0) + (1 if _unset(s._mie_top_pressure) else 0)
+    ext_all = loc.ghost('extreme')
+    ext = ext_all[unset:]                                    # the max()/min() of the levels come first, then those of the weights
+    ends = []                                                # an unset bound is the outermost level: max / min of the ascending log-levels
+    k_ = 0
+    if _unset(s._mie_bottom_pressure):
+        mb, wib, _, elb = ext_all[k_]
+        k_ += 1
+        ends += [c.And(elb(wib) == mb, elb(nn) <= mb, elb(nn) == pl[nn], elb(wib) == pl[wib], pl[nn] == LL(0), pl[wib] == c.log10(L[nn - wib])),
+                 c.And(c.log10(L[nn - wib]) <= LL(0), mb == LL(0))]
+    if _unset(s._mie_top_pressure):
+        mt, wit, _, elt = ext_all[k_]
+        ends += [c.And(elt(wit) == mt, elt(0) >= mt, elt(0) == pl[0], elt(wit) == pl[wit], pl[0] == LL(n), pl[wit] == c.log10(L[nn - wit])),
+                 c.And(LL(n) <= c.log10(L[nn - wit]), mt == LL(n))]
+    ends += [c.And(a_ == lo, b_ == hi)]
+    zero_path = z3.is_rational_value(z3.simplify(sig[z3.Int('l?'), z3.Int('w?')]))
+
+    def facts(l):
+        jr = nn - 1 - to_int(l)
+        wr = c.Min(b_, pl[jr + 1]) - c.Max(a_, pl[jr])
+        base = ends + [c.And(pl[jr + 1] == LL(l), pl[jr] == LL(l + 1), 0 <= jr, jr < nn), LL(l + 1) < LL(l),
+                       c.And(0 <= s1, s1 <= nn, 0 <= s2, s2 <= nn - 1)]
+        return jr, wr, base
+
+    def in_slice_when_meeting(l, jr):
+        # the searchsorted windows: a layer whose upper edge is above lo is not among the s1 layers wholly below it, a layer
+        # whose lower edge is below hi is not beyond s2
+        return [z3.And(e1(jr) == pl[jr + 1], z3.Implies(jr >= 1, e2(jr - 1) == pl[jr])),
+                z3.Implies(z3.And(jr < s1), pl[jr + 1] <= a_), z3.Implies(z3.And(jr > s2, jr >= 1), pl[jr] > b_),
+                z3.Implies(meets(l), z3.And(s1 <= jr, jr <= s2))]
+
+    def clause(kind):
+        def per(l, w):
+            jr, wr, base = facts(l)
+            goal = {'A': A, 'B': B, 'C': C}[kind](l, w)
+            if zero_path:
+                if kind != 'C':
+                    return goal
+                hs = base + in_slice_when_meeting(l, jr)
+                if ext:
+                    m1, wi1, arr1, el1 = ext[0]
+                    hs += [z3.Implies(z3.And(s1 <= jr, jr <= s2), el1(jr - s1) == wr),
+                           z3.Implies(z3.And(s1 <= jr, jr <= s2), wr <= m1), z3.Implies(meets(l), wr > 0)]
+                return c.hint(goal, *hs)
+            m1, wi1, arr1, el1 = ext[0]
+            m2, wi2, arr2, el2 = ext[-1]
+            ins = z3.And(s1 <= jr, jr <= s2)
+            val = mix * (c.Max(wr, 0) / m2)
+            hs = base + [c.And(arr1.elem((wi2,)) <= m1, arr1.elem((wi1,)) == m1, arr2.elem((wi1,)) <= m2, arr2.elem((wi2,)) == m2),
+                         c.And(m1 > 0, m1 <= m2, m2 <= m1), sig[l, w] == c.If(ins, val, 0),
+                         z3.Implies(ins, z3.And(el2(jr - s1) == wr, el2(jr - s1) <= m2)), z3.Implies(ins, wr <= m2)]
+            if kind == 'A':
+                hs += [c.pure_ground(z3.And(0 <= val, val <= mix), z3.Implies(ins, wr <= m2), m2 > 0, mix >= 0, ins) if False else
+                       z3.Implies(ins, z3.And(0 <= c.Max(wr, 0) / m2, c.Max(wr, 0) / m2 <= 1)),
+                       z3.Implies(ins, z3.And(0 <= val, val <= mix))]
+            elif kind == 'B':
+                hs += [z3.Implies(outside(l), wr <= 0), z3.Implies(z3.And(outside(l), ins), val == 0)]
+            else:
+                hs += in_slice_when_meeting(l, jr) + [z3.Implies(meets(l), wr > 0), z3.Implies(z3.And(meets(l), mix > 0), c.Max(wr, 0) / m2 > 0),
+                                                      z3.Implies(z3.And(meets(l), mix > 0), val > 0)]
+            return c.hint(goal, *hs)
+        return c.ForallH(0, n, lambda l: c.ForallH(0, W, lambda w: per(l, w)))
+    d['never_more_than_the_declared_magnitude'] = clause('A')
+    d['none_in_layers_wholly_outside'] = clause('B')
+    d['some_in_every_layer_that_overlaps'] = clause('C')
+    return d
+
+
+def _fm_obj(c, p):
+    from taurex.contributions.flatmie import FlatMieContribution
+    return FlatMieContribution()
+
+
+def _fm_call(c, o, p):
+    import numpy as np
+    from types import SimpleNamespace as NS
+    s = p['self']
+    o.mieMixing, o.mieBottomPressure, o.mieTopPressure = s['_mie_mix'], s['_mie_bottom_pressure'], s['_mie_top_pressure']
+    m = NS(nLayers=p['model']['nLayers'], pressure=NS(pressure_profile_levels=np.array(p['model']['pressure']['pressure_profile_levels'], dtype=float)))
+    out = [(nm, np.asarray(x)) for nm, x in o.prepare_each(m, np.array(p['wngrid'], dtype=float))]
+    return out, dict(p, self=dict(s, sigma_xsec=o.sigma_xsec))
+
+
+def _fm_gen(rng):
+    n, W = rng.randint(1, 6), rng.randint(1, 3)
+    lev = sorted((10 ** rng.uniform(-3, 6) for _ in range(n + 1)), reverse=True)
+    a, b = 10 ** rng.uniform(-4, 7), 10 ** rng.uniform(-4, 7)
+    return dict(n=n, W=W, lev=lev, wngrid=[rng.uniform(300, 30000) for _ in range(W)], mix=10 ** rng.uniform(-12, -6), top_set=rng.random() < 0.6,
+                bottom_set=rng.random() < 0.6, Ptop=rng.choice([a, lev[-1], lev[rng.randrange(n + 1)]]), Pbottom=rng.choice([b, lev[0], lev[rng.randrange(n + 1)]]))
+
+
+FMP = Unit('C19', FM + 'prepare_each', _fm_params, pre=_fm_pre, post=_fm_post, native_obj=_fm_obj, native_call=_fm_call, gen=_fm_gen,
+           cases=[{'top_set': a, 'bottom_set': b} for a in (False, True) for b in (False, True)], bounds=[dict(n=2, W=1)],
+           inline=['mieBottomPressure', 'mieTopPressure', 'mieMixing'], frame_attrs=[('self', a) for a in ('sigma_xsec', '_nlayers', '_ngrid')],
+           safety=('index', 'sorted', 'domain'), timeout_ms=30000, short='FlatMieContribution.prepare_each',
+           doc='grey haze: none in layers wholly outside the pressure window, a positive amount never above the declared magnitude in every '
+               'layer that overlaps it, unset bounds = the outermost levels, bounds in either order')
 
 
 # ------------------------------------------------------------------ FlatMie: bounded stand-in
